@@ -42,7 +42,8 @@ func relClose(got, want float64, tol float64) bool {
 		return math.IsInf(got, 0) && (got > 0) == (want > 0) || math.Abs(got) >= math.MaxFloat64*(1-tol) && (got > 0) == (want > 0)
 	}
 	if math.IsInf(got, 0) {
-		return false
+		// the same threshold from the other side: a value within tol of the largest float64 times (1+tol) is beyond it
+		return math.Abs(want) >= math.MaxFloat64*(1-tol) && (got > 0) == (want > 0)
 	}
 	if math.Abs(want) < 2.2250738585072014e-308 {
 		// subnormal results carry fewer than 53 bits: two units of the last place
@@ -421,6 +422,14 @@ func c14Work(c *engine.Ctx) {
 	for i := 1; i <= 18; i++ {
 		boundary = append(boundary, "123456789012345678"[:i]+"."+"123456789012345678"[i:])
 	}
+	// many significant digits at the two ends of the float64 range
+	for _, n := range []int{285, 290, 300, 305, 307, 308, 310, 320, 323} {
+		boundary = append(boundary, "0."+strings.Repeat("0", n)+"123456789012345678", "-."+strings.Repeat("0", n)+"9999999999999999999999")
+	}
+	for _, n := range []int{280, 289, 290, 291, 292} {
+		boundary = append(boundary, "123456789012345678"+strings.Repeat("0", n), "17976931348623157"+strings.Repeat("0", n)+".5")
+	}
+	boundary = append(boundary, "123456789012345678e-325", "123456789012345678e-342", "0.000123456789012345678e-300", "123456789012345678e290", "123456789012345678e291", "0.000000000179769313486231570e318")
 	for _, s := range boundary {
 		c.EditBall([]byte(s), al.Atoms, func(in []byte) {
 			c.Exec(psp, in, nil)
@@ -549,8 +558,8 @@ func c14Finish(c *engine.Ctx, cov map[string]interface{}) string {
 func init() {
 	register(&engine.Check{
 		ID: "C14", Level: "exploration",
-		Rule:        "parsers: all strings ≤7 over {+ - 0 1 5 9 . e E x} and single-edit neighbours of 80 boundary numerals (among them exponents at and beyond the int64 range) vs strconv.ParseInt/ParseUint/ParseFloat on the longest syntactic prefix; AppendInt/LenInt on {±(10^k+d), ±(2^k+d), 0, min, max}; AppendNumber→ParseNumber on that family × dec 0..18 × groupSize 0..6 × ordered pairs of distinct symbols of 1–4 UTF-8 bytes; AppendFloat on m·10^e (m≤99 quick / 999 thorough, e∈[-330,310], both signs) × prec −1..18: well-formed, right sign, within one unit of the requested last digit (big.Float); AppendDecimal on e∈[-20,40] ∪ {100, 308} × dec 0..18 vs big.Rat round-half-away with trailing zeros dropped; both formatters also on the two float64 neighbours of each m·10^e and on integers and binary fractions around 2^44 … 2^63; every formatter with a prefix in the destination at cap==len and with room",
-		Assumptions: []string{"AppendDecimal is accepted if it equals round-half-away of either the shortest decimal form of the float or its exact binary value, or of a float64 within one ulp of the product f·10^dec when that product is not exact; when the product does not fit an int64 the dropped decimals may differ by 8 ulp of the argument"},
+		Rule:        "parsers: all strings ≤7 over {+ - 0 1 5 9 . e E x} and single-edit neighbours of 110 boundary numerals (18 and more significant digits at both ends of the float64 range, exponents at and beyond the int64 range) vs strconv.ParseInt/ParseUint/ParseFloat on the longest syntactic prefix; AppendInt/LenInt on {±(10^k+d), ±(2^k+d), 0, min, max}; AppendNumber→ParseNumber on that family × dec 0..18 × groupSize 0..6 × ordered pairs of distinct symbols of 1–4 UTF-8 bytes; AppendFloat on m·10^e (m≤99 quick / 999 thorough, e∈[-330,310], both signs) × prec −1..18: well-formed, right sign, within one unit of the requested last digit (big.Float); AppendDecimal on e∈[-20,40] ∪ {100, 308} × dec 0..18 vs big.Rat round-half-away with trailing zeros dropped; both formatters also on the two float64 neighbours of each m·10^e and on integers and binary fractions around 2^44 … 2^63; every formatter with a prefix in the destination at cap==len and with room",
+		Assumptions: []string{"a parsed value within 1e-14 of the largest float64 may come out as infinity and the other way round (the tolerance applied at the overflow threshold)", "AppendDecimal is accepted if it equals round-half-away of either the shortest decimal form of the float or its exact binary value, or of a float64 within one ulp of the product f·10^dec when that product is not exact; when the product does not fit an int64 the dropped decimals may differ by 8 ulp of the argument"},
 		Setup:       c14Setup, Work: c14Work, Finish: c14Finish,
 	})
 }
